@@ -55,6 +55,15 @@ def index_class(i):
     return "hardened" if i >= H else "normal"
 
 
+def case_salt(case, n=32):
+    """Bytes determined by the whole case. PRF-substituting clauses use it as chain code / seed suffix so that the
+    scripted PRF stays a FUNCTION of its input within a process (two cases never ask for different outputs on the
+    same (key, message)); a correct implementation that memoises HMAC-derived values must not be misjudged."""
+    import hashlib
+    from vlib.engine import canon
+    return hashlib.sha512(canon(case).encode()).digest()[:n]
+
+
 def fingerprints():
     return st.binary(min_size=4, max_size=4)
 
@@ -72,6 +81,7 @@ NFKD_ALPHABET = (
     "̧̣́̈"                    # combining marks
     "ガぱｶﾞ"                    # kana with (semi)voiced marks, halfwidth
     "aeiouAZ z"
+    "\ufa70\u1d43\U0001f130\u10fc\u03f9\u2c7c\ua7f8\U0001d7ce"   # decompositions added after Unicode 3.2
 )
 
 
